@@ -31,6 +31,9 @@ Inv_Interface == ~O.raised => Required \subseteq {O.attrs[i] : i \in DOMAIN O.at
 \* the module receiving the constraints is the selected one (or the module it re-exports)
 Inv_Sink == ~O.raised => (O.sink = O.mod \/ O.sink = Entry(O.name).base)
 
+\* the field the proof artefacts declare (r1cs header prime, zkinterface field_maximum + 1) is the field of the backend in effect
+Inv_ArtefactField == (~O.raised /\ O.afield # "") => O.afield = O.field
+
 Inv_Predicted == /\ O.raised = Outcome.raised
                  /\ ~O.raised => (O.name = Outcome.name /\ O.mod = Outcome.mod /\ O.field = Outcome.field
                                    /\ O.unknownmsg = Outcome.unknownmsg /\ O.groth = Outcome.groth)
